@@ -166,48 +166,71 @@ def lzxBlockTail (fuel bufSize : Nat) (lzx : Lzx.St InFile) (blkDsize blkCrc : N
       else if crc ≠ blkCrc then .ok ⟨.checksum, o.written, c.rd⟩
       else .ok ⟨.ok, o.written, c.rd⟩
 
+/-- what one round of a `while (target_size)` loop did: returned (`goto out`) or went round again -/
+inductive Round where
+  | done (r : Err × Bytes)
+  | next (infh : Rd) (basePos targetSize : Nat) (w : Bytes)
+
+/-- one round of `while (target_size)` of `oabd_decompress`: block header, then the block.
+    `w` = contents of the output file so far. -/
+def fullBlock (fuel bufSize : Nat) (fill : UInt8) (blockMax : Nat) (infh : Rd) (targetSize : Nat) (w : Bytes) :
+    Except Fault Round :=
+  match infh.readExact oabblkSIZEOF with
+  | none => .ok (.done (.read, w))
+  | some (buf, infh) =>
+    let blkFlags := u32At buf oabblk_Flags
+    let blkCsize := u32At buf oabblk_CompSize
+    let blkDsize := u32At buf oabblk_UncompSize
+    let blkCrc := u32At buf oabblk_CRC
+    if blkDsize > blockMax ∨ blkDsize > targetSize ∨ blkFlags > 1 then .ok (.done (.dataformat, w)) else
+    if blkFlags = 0 then
+      -- Uncompressed block
+      if blkDsize ≠ blkCsize then .ok (.done (.dataformat, w)) else
+      match copyFh true infh blkDsize bufSize with
+      | .error f => .error f
+      | .ok c =>
+        if c.err ≠ .ok then .ok (.done (c.err, w ++ c.written))
+        else .ok (.next c.rd 0 (targetSize - blkDsize) (w ++ c.written))
+    else
+      -- LZX compressed block
+      let wb := windowBits blkDsize
+      -- in_ofh.available = blk_csize; out_ofh.crc = 0xffffffff;
+      match lzxInit ⟨infh, blkCsize⟩ wb bufSize blkDsize fill with
+      | none => .ok (.done (.nomemory, w))
+      | some lzx =>
+        match lzxBlockTail fuel bufSize lzx blkDsize blkCrc with
+        | .error f => .error f
+        | .ok b =>
+          if b.err ≠ .ok then .ok (.done (b.err, w ++ b.written))
+          else .ok (.next b.rd 0 (targetSize - blkDsize) (w ++ b.written))
+
 /-- `while (target_size)` of `oabd_decompress`.  `n` bounds the number of rounds (every round
-    reads a 16-byte block header); `w` = contents of the output file so far.
-    Result: the status and the output file. -/
+    reads a 16-byte block header).  Result: the status and the output file. -/
 def fullLoop (fuel bufSize : Nat) (fill : UInt8) (blockMax : Nat) :
     Nat → Rd → Nat → Bytes → Except Fault (Err × Bytes)
   | 0, _, targetSize, w => if targetSize = 0 then .ok (.ok, w) else .error .hang
   | n + 1, infh, targetSize, w =>
     if targetSize = 0 then .ok (.ok, w) else
-    match infh.readExact oabblkSIZEOF with
-    | none => .ok (.read, w)
-    | some (buf, infh) =>
-      let blkFlags := u32At buf oabblk_Flags
-      let blkCsize := u32At buf oabblk_CompSize
-      let blkDsize := u32At buf oabblk_UncompSize
-      let blkCrc := u32At buf oabblk_CRC
-      if blkDsize > blockMax ∨ blkDsize > targetSize ∨ blkFlags > 1 then .ok (.dataformat, w) else
-      if blkFlags = 0 then
-        -- Uncompressed block
-        if blkDsize ≠ blkCsize then .ok (.dataformat, w) else
-        match copyFh true infh blkDsize bufSize with
-        | .error f => .error f
-        | .ok c =>
-          if c.err ≠ .ok then .ok (c.err, w ++ c.written)
-          else fullLoop fuel bufSize fill blockMax n c.rd (targetSize - blkDsize) (w ++ c.written)
-      else
-        -- LZX compressed block
-        let wb := windowBits blkDsize
-        -- in_ofh.available = blk_csize; out_ofh.crc = 0xffffffff;
-        match lzxInit ⟨infh, blkCsize⟩ wb bufSize blkDsize fill with
-        | none => .ok (.nomemory, w)
-        | some lzx =>
-          match lzxBlockTail fuel bufSize lzx blkDsize blkCrc with
-          | .error f => .error f
-          | .ok b =>
-            if b.err ≠ .ok then .ok (b.err, w ++ b.written)
-            else fullLoop fuel bufSize fill blockMax n b.rd (targetSize - blkDsize) (w ++ b.written)
+    match fullBlock fuel bufSize fill blockMax infh targetSize w with
+    | .error f => .error f
+    | .ok (.done r) => .ok r
+    | .ok (.next infh _ targetSize w) => fullLoop fuel bufSize fill blockMax n infh targetSize w
 
 /-- what one API call did: the value returned, and the bytes the output handle accepted in order
     (= the output file afterwards); `none` = the output file was never opened -/
 structure Out where
   err     : Err
   written : Option Bytes
+
+/-- `oabd_decompress` from the point where the output is opened: the block loop
+    (`blockMax`, `targetSize` = the header fields) -/
+def fullRun (fuel bufSize : Nat) (fill : UInt8) (fileLen blockMax targetSize : Nat) (infh : Rd)
+    (outIsIn : Bool) : Except Fault Out :=
+  -- the output is opened (created / truncated) here
+  let infh : Rd := if outIsIn then { infh with file := [] } else infh
+  match fullLoop fuel bufSize fill blockMax (fileLen / 16 + 1) infh targetSize [] with
+  | .error f => .error f
+  | .ok (e, w) => .ok ⟨e, some w⟩
 
 /-- `oabd_decompress(self, input, output)` for non-NULL `self`.
     `fuel`: LZX decoder fuel (≥ 16 × input bytes + 100000); `bufSize` = `self->buf_size`;
@@ -223,78 +246,94 @@ def decompress (fuel bufSize : Nat) (fill : UInt8) (input : Option Bytes)
       if u32At hdrbuf oabhead_VersionHi ≠ 3 ∨ u32At hdrbuf oabhead_VersionLo ≠ 1 then
         .ok ⟨.signature, none⟩
       else
-        let blockMax := u32At hdrbuf oabhead_BlockMax
-        let targetSize := u32At hdrbuf oabhead_TargetSize
-        -- the output is opened (created / truncated) here
-        let infh : Rd := if outIsIn then { infh with file := [] } else infh
-        match fullLoop fuel bufSize fill blockMax (file.length / 16 + 1) infh targetSize [] with
-        | .error f => .error f
-        | .ok (e, w) => .ok ⟨e, some w⟩
+        fullRun fuel bufSize fill file.length (u32At hdrbuf oabhead_BlockMax) (u32At hdrbuf oabhead_TargetSize)
+          infh outIsIn
 
 /-- `window_size = (blk_ssize + 32767) & ~32767; window_size += blk_dsize;` in `unsigned int` -/
 def patchWindowSize (blkSsize blkDsize : Nat) : Nat :=
   ((blkSsize + 32767) % 4294967296 / 32768 * 32768 + blkDsize) % 4294967296
 
-/-- `while (target_size)` of `oabd_decompress_incremental`.  `basePos` = position of `basefh`;
-    the base file is `base`, or the output so far if `outIsBase`. -/
+/-- one round of `while (target_size)` of `oabd_decompress_incremental`.  `basePos` = position of
+    `basefh`; the base file is `base`, or the output so far if `outIsBase`. -/
+def patchBlock (fuel bufSize : Nat) (fill : UInt8) (blockMax : Nat) (base : Bytes) (outIsBase : Bool)
+    (infh : Rd) (basePos targetSize : Nat) (w : Bytes) : Except Fault Round :=
+  match infh.readExact patchblkSIZEOF with
+  | none => .ok (.done (.read, w))
+  | some (buf, infh) =>
+    let blkCsize := u32At buf patchblk_PatchSize
+    let blkDsize := u32At buf patchblk_TargetSize
+    let blkSsize := u32At buf patchblk_SourceSize
+    let blkCrc := u32At buf patchblk_CRC
+    if blkDsize > blockMax ∨ blkDsize > targetSize ∨ blkSsize > blockMax then .ok (.done (.dataformat, w)) else
+    let windowSize := patchWindowSize blkSsize blkDsize
+    let wb := windowBits windowSize
+    -- in_ofh.available = blk_csize; out_ofh.crc = 0xffffffff;
+    match lzxInit ⟨infh, blkCsize⟩ wb 4096 blkDsize fill with
+    | none => .ok (.done (.nomemory, w))
+    | some lzx =>
+      -- lzxd_set_reference_data(lzx, sys, basefh, blk_ssize): one read of blk_ssize bytes
+      -- (not made at all if the call fails its argument checks or blk_ssize is 0; then the
+      -- position does not matter / does not move)
+      let basefh : Rd := ⟨if outIsBase then w else base, basePos⟩
+      let rd := basefh.read blkSsize                                   -- (ref, basefh afterwards)
+      let sr := Lzx.setReferenceData lzx blkSsize (some rd.1)          -- (status, lzx afterwards)
+      if sr.1 ≠ .ok then .ok (.done (sr.1, w)) else
+      match lzxBlockTail fuel bufSize sr.2 blkDsize blkCrc with
+      | .error f => .error f
+      | .ok b =>
+        if b.err ≠ .ok then .ok (.done (b.err, w ++ b.written))
+        else .ok (.next b.rd rd.2.pos (targetSize - blkDsize) (w ++ b.written))
+
+/-- `while (target_size)` of `oabd_decompress_incremental` -/
 def patchLoop (fuel bufSize : Nat) (fill : UInt8) (blockMax : Nat) (base : Bytes) (outIsBase : Bool) :
     Nat → Rd → Nat → Nat → Bytes → Except Fault (Err × Bytes)
   | 0, _, _, targetSize, w => if targetSize = 0 then .ok (.ok, w) else .error .hang
   | n + 1, infh, basePos, targetSize, w =>
     if targetSize = 0 then .ok (.ok, w) else
-    match infh.readExact patchblkSIZEOF with
-    | none => .ok (.read, w)
-    | some (buf, infh) =>
-      let blkCsize := u32At buf patchblk_PatchSize
-      let blkDsize := u32At buf patchblk_TargetSize
-      let blkSsize := u32At buf patchblk_SourceSize
-      let blkCrc := u32At buf patchblk_CRC
-      if blkDsize > blockMax ∨ blkDsize > targetSize ∨ blkSsize > blockMax then .ok (.dataformat, w) else
-      let windowSize := patchWindowSize blkSsize blkDsize
-      let wb := windowBits windowSize
-      -- in_ofh.available = blk_csize; out_ofh.crc = 0xffffffff;
-      match lzxInit ⟨infh, blkCsize⟩ wb 4096 blkDsize fill with
-      | none => .ok (.nomemory, w)
-      | some lzx =>
-        -- lzxd_set_reference_data(lzx, sys, basefh, blk_ssize): one read of blk_ssize bytes
-        -- (not made at all if the call fails its argument checks or blk_ssize is 0; then the
-        -- position does not matter / does not move)
-        let basefh : Rd := ⟨if outIsBase then w else base, basePos⟩
-        let (ref, basefh) := basefh.read blkSsize
-        match Lzx.setReferenceData lzx blkSsize (some ref) with
-        | (e, lzx) =>
-          if e ≠ .ok then .ok (e, w) else
-          match lzxBlockTail fuel bufSize lzx blkDsize blkCrc with
-          | .error f => .error f
-          | .ok b =>
-            if b.err ≠ .ok then .ok (b.err, w ++ b.written)
-            else patchLoop fuel bufSize fill blockMax base outIsBase n b.rd basefh.pos
-                   (targetSize - blkDsize) (w ++ b.written)
+    match patchBlock fuel bufSize fill blockMax base outIsBase infh basePos targetSize w with
+    | .error f => .error f
+    | .ok (.done r) => .ok r
+    | .ok (.next infh basePos targetSize w) =>
+      patchLoop fuel bufSize fill blockMax base outIsBase n infh basePos targetSize w
 
-/-- `oabd_decompress_incremental(self, input, base, output)` for non-NULL `self` -/
+/-- `oabd_decompress_incremental` from the point where the output is opened: the block loop -/
+def incrementalLoop (fuel bufSize : Nat) (fill : UInt8) (fileLen blockMax targetSize : Nat) (infh : Rd)
+    (base : Bytes) (outIsIn outIsBase : Bool) : Except Fault Out :=
+  -- (`blockMax`, `targetSize`: the header fields, passed in as numbers — a definition whose body
+  --  reads them out of a buffer and then enters the loop makes the kernel evaluate `x * 16777216`
+  --  with unknown `x` when it checks the unfolding equation)
+  -- We use it for reading block headers too
+  let blockMax := if blockMax < patchblkSIZEOF then patchblkSIZEOF else blockMax
+  -- the output is opened (created / truncated) here
+  let infh : Rd := if outIsIn then { infh with file := [] } else infh
+  match patchLoop fuel bufSize fill blockMax base outIsBase (fileLen / 16 + 1) infh 0 targetSize [] with
+  | .error f => .error f
+  | .ok (e, w) => .ok ⟨e, some w⟩
+
+/-- ... from the point where the base file is opened -/
+def incrementalBase (fuel bufSize : Nat) (fill : UInt8) (fileLen blockMax targetSize : Nat) (infh : Rd)
+    (base : Option Bytes) (outIsIn outIsBase : Bool) : Except Fault Out :=
+  match base with
+  | none => .ok ⟨.open_, none⟩
+  | some base => incrementalLoop fuel bufSize fill fileLen blockMax targetSize infh base outIsIn outIsBase
+
+/-- ... from the point where the input has been opened: header read and signature check -/
+def incrementalOpened (fuel bufSize : Nat) (fill : UInt8) (file : Bytes) (base : Option Bytes)
+    (outIsIn outIsBase : Bool) : Except Fault Out :=
+  match (⟨file, 0⟩ : Rd).readExact patchheadSIZEOF with
+  | none => .ok ⟨.read, none⟩
+  | some (hdrbuf, infh) =>
+    if u32At hdrbuf patchhead_VersionHi ≠ 3 ∨ u32At hdrbuf patchhead_VersionLo ≠ 2 then
+      .ok ⟨.signature, none⟩
+    else incrementalBase fuel bufSize fill file.length (u32At hdrbuf patchhead_BlockMax)
+           (u32At hdrbuf patchhead_TargetSize) infh base outIsIn outIsBase
+
+/-- `oabd_decompress_incremental(self, input, base, output)` for non-NULL `self` (the order of the
+    C: open input, read and check the header, open the base, open the output, loop) -/
 def decompressIncremental (fuel bufSize : Nat) (fill : UInt8) (input base : Option Bytes)
     (outIsIn : Bool := false) (outIsBase : Bool := false) : Except Fault Out :=
   match input with
   | none => .ok ⟨.open_, none⟩
-  | some file =>
-    match (⟨file, 0⟩ : Rd).readExact patchheadSIZEOF with
-    | none => .ok ⟨.read, none⟩
-    | some (hdrbuf, infh) =>
-      if u32At hdrbuf patchhead_VersionHi ≠ 3 ∨ u32At hdrbuf patchhead_VersionLo ≠ 2 then
-        .ok ⟨.signature, none⟩
-      else
-        let blockMax := u32At hdrbuf patchhead_BlockMax
-        let targetSize := u32At hdrbuf patchhead_TargetSize
-        -- We use it for reading block headers too
-        let blockMax := if blockMax < patchblkSIZEOF then patchblkSIZEOF else blockMax
-        match base with
-        | none => .ok ⟨.open_, none⟩
-        | some base =>
-          -- the output is opened (created / truncated) here
-          let infh : Rd := if outIsIn then { infh with file := [] } else infh
-          match patchLoop fuel bufSize fill blockMax base outIsBase (file.length / 16 + 1)
-                  infh 0 targetSize [] with
-          | .error f => .error f
-          | .ok (e, w) => .ok ⟨e, some w⟩
+  | some file => incrementalOpened fuel bufSize fill file base outIsIn outIsBase
 
 end MsPack.Oab
